@@ -32,7 +32,8 @@ partial def rawJson : Raw → Json
   | .str s => ofChars s
   | .list xs => obj [("l", Json.arr (xs.map rawJson).toArray)]
   | .dict kvs => obj [("d", Json.arr (kvs.map (fun p => Json.arr #[ofChars p.1, rawJson p.2])).toArray)]
-  | .pairs kvs => obj [("p", Json.arr (kvs.map (fun p => Json.arr #[ofChars p.1, rawJson p.2])).toArray)]
+  | .pairs kvs =>   -- a list of 2-tuples, rendered as the harness renders a Python list of tuples
+    obj [("l", Json.arr (kvs.map (fun p => obj [("l", Json.arr #[ofChars p.1, rawJson p.2])])).toArray)]
 
 def parsePolicy (s : String) : Except String Policy :=
   match s with
